@@ -29,6 +29,25 @@ def injected(cfg, node, step, delta, cid):
     return c
 
 
+def nodal_row(prob, op, node_name, step):
+    """index of the row of class N whose non-zero columns are exactly the variables dispatching at (node, step) according to the mapping"""
+    m = op.mapping
+    sel = m[(m['node'].astype(str) == str(node_name)) & (m['time_step'] == step) & (m['type'] == 'd')]
+    want = set(int(i) for i in sel.index)
+    if not want:
+        return None
+    cache = getattr(prob, '_nrows', None)
+    if cache is None:
+        A = prob.A.tocsr()
+        cache = {}
+        for i, ch in enumerate(prob.ct):
+            if ch == 'N':
+                r = A.getrow(i)
+                cache.setdefault(frozenset(int(j) for j, v in zip(r.indices, r.data) if v != 0), i)
+        prob._nrows = cache
+    return cache.get(frozenset(want))
+
+
 def lp_families(tier, seed):
     th = tier == 'thorough'
     k = 1 if th else 4
@@ -47,6 +66,13 @@ def lp_families(tier, seed):
     for c in fam.fam_structured()[seed % (4 if not th else 1)::(4 if not th else 1)]:
         out.append(('structured', c))
     out = [(tag, c) for tag, c in out if all(d == 1 for d in c['dt'])]      # the unit injection is a rate: one unit of volume only on unit steps
+    # split set-ups on grids whose steps differ in length (days across the CET switch, intervals of two days): no lattice value function there
+    # (the injection is not a unit of volume), the prices are judged by real re-optimisation with a perturbed balance
+    for dt in ([24, 23, 24, 24], [24, 24, 23, 24], [24, 25, 24, 24]):
+        cal = 'spring_late' if dt[2] == 23 else None
+        a = [F.contract(4, 'n1', -1, 1, [1, 5, 2, 6], q=24), F.storage(4, 'n1', size=48, cin=1, cout=1, q=24), F.contract(4, 'n1', -2, 2, [3, 4, 2, 5], ec=1, q=24)]
+        c = F.make_cfg(900 + len(out), 4, a, dt=dt, split={3}, refines=True, interval='2d', coupling='storage_start_eq_end', **(dict(cal=cal) if cal else {}))
+        out.append(('split_dst', c))
     # magnitude of cost coefficients: the same portfolios with a back-up source priced at a "value of lost load" (never or rarely used)
     big = []
     for tag, c in out[::3 if not th else 1]:
@@ -72,6 +98,8 @@ def run(tier, seed):
         base['id'] = cid
         allcfgs.append(base)
         index[(k, None, None, 0)] = cid
+        if any(x != 1 for x in c['dt']):
+            continue
         for n in sorted(c['nodes']):
             for t in range(1, c['T'] + 1):
                 for d in (1, -1):
@@ -127,15 +155,15 @@ def run(tier, seed):
                         continue
                     chk.cnt['eval_prices'] += 1
                     # lattice value function from TLC; used only where the lattice optimum is the LP optimum (observed)
-                    vp, vm = best.get(index[(k, n, t, 1)]), best.get(index[(k, n, t, -1)])
+                    vp, vm = best.get(index.get((k, n, t, 1))), best.get(index.get((k, n, t, -1)))
                     hasv = v0_lat is not None and vp is not None and vm is not None and abs(v0_lat / scale - v0) < 1e-6 * max(1, abs(v0))
                     vd = []
-                    if not split:
-                        # real re-optimisation with perturbed nodal right-hand side: sum(disp) + d = 0
-                        rows = [i for i, (tt, nn) in enumerate(op.map_nodal_restr) if tt == t - 1 and nn == real.nodenames(n)]
-                        nrow = [i for i, ch in enumerate(prob0.ct) if ch == 'N']
-                        if rows:
-                            ridx = nrow[len(nrow) - len(op.map_nodal_restr) + rows[0]]
+                    if True:
+                        # real re-optimisation with perturbed nodal right-hand side: sum(disp) + d = 0.  The balance row of (node, step) is
+                        # found by its SUPPORT -- the variables whose mapping rows dispatch at that node and step -- not by the problem's own
+                        # table of nodal rows (monolithic and split problems alike)
+                        ridx = nodal_row(prob0, op, real.nodenames(n), t - 1)
+                        if ridx is not None:
                             for dn in (1, -1):
                                 p2 = copy.copy(prob0)
                                 p2.lo = prob0.lo.copy()
